@@ -3,6 +3,7 @@ Utilities to Support Random Operations and Generating Vectors and Matrices
 
 """
 
+import numbers
 import numpy as np
 from numba import guvectorize, types
 from numba.extending import overload
@@ -198,7 +199,7 @@ def draw(cdf, size=None):
     array([1, 0, 1, 0, 1, 0, 0, 0, 1, 0])
 
     """
-    if isinstance(size, int):
+    if isinstance(size, numbers.Integral):
         rs = np.random.random(size)
         out = np.empty(size, dtype=np.int_)
         for i in range(size):
